@@ -2,222 +2,181 @@
    stalls.  Only statements closed by `exact`, with Print Assumptions.
 
    Model: Model/Stream.v (Stream.next pass by pass, Engine.Watch, Stream.Close,
-   the publish/broadcast tail of Engine.Commit, Engine.Close).  Proofs:
-   Proofs/StreamProofs.v.  The sequential theorems quantify over EVERY script
-   of commits, retention trims, single passes of next's loop (Next or TryNext,
-   cancelled context or not) and Close — induction over the script, no bound;
-   one pass is the atomic unit because it runs under s.mutex on one catalog
-   snapshot.  `inv h pre w mid post` is the invariant: the history is
-   pre ++ mid ++ post with pre the events before the stream's start position;
-   watch_inv shows every stream Engine.Watch returns starts in it.
+   the publish/broadcast tail of Engine.Commit, Engine.Close) of the REPAIRED
+   stream position: Stream.last is the id timestamp of the last passed event,
+   Catalog.Trimmed the id of the newest event retention has removed, a stream
+   has lost its position iff Trimmed > last.  Proofs: Proofs/StreamProofs.v.
+   The sequential theorems quantify over EVERY script of commits (ids strictly
+   increasing, C08), retention trims, single passes of next's loop (Next or
+   TryNext, cancelled context or not) and Close — induction over the script, no
+   bound; one pass is the atomic unit because it runs under s.mutex on one
+   catalog snapshot.  `sinv h z w mid post`: the events of the history above the
+   start position z are mid ++ post, mid passed, post ahead.
 
-   Two statements of the plan are FALSE of the faithful model of the current
-   code; each is given as  _refuted (witness, by computation) + _partial:
-     - lost_is_reported   : a stream with s.last = nil (opened on an empty
-                            oplog, or positioned at the first retained event by
-                            startAtOperationTime) silently skips events removed
-                            by retention               -> known finding;
-     - delivery_complete  : a stream whose reference event (already behind it)
-                            is removed reports ErrLostOplogPosition although
-                            every undelivered event is retained -> known finding. *)
+   lost_is_reported and delivery_complete are FULL statements now; the two
+   former refutation witnesses (known findings C09:silent-skip-unanchored-stream
+   and C09:spurious-lost-anchor-trimmed) are kept as *_repaired examples. *)
 From Coq Require Import List ZArith Bool.
 From Lungo.Model Require Import Stream.
 From Lungo.Proofs Require Import StreamProofs.
 Import ListNotations.
 Local Open Scope list_scope.
-Local Open Scope nat_scope.
+Local Open Scope Z_scope.
 Local Notation length := List.length (only parsing).
 
-(* ---- every stream returned by Watch starts in the invariant ---- *)
+(* every stream returned by Watch starts in the invariant, at start position z = its s.last *)
 Theorem C09_watch_inv : forall h o hist ntrim st,
-  NoDup (ids hist) -> ntrim <= length hist ->
-  watch h o (skipn ntrim hist) = Some st ->
-  exists pre post, inv h pre (world0 hist ntrim st) [] post /\ live st /\ sdropped st = false.
+  increasing ts_zero hist -> (ntrim <= length hist)%nat -> at_ok o ->
+  watch h o (skipn ntrim hist) (trimmed_of hist ntrim) = Some st ->
+  sinv h (slast st) (world0 hist ntrim st) [] (after (slast st) hist) /\ live st /\ sdropped st = false.
 Proof. exact watch_inv. Qed.
 Print Assumptions C09_watch_inv.
 
-(* start position of the three modes *)
-Theorem C09_watch_now_start : forall h hist ntrim, NoDup (ids hist) -> ntrim <= length hist ->
-  exists st, watch h watch_now (skipn ntrim hist) = Some st /\
-             inv h hist (world0 hist ntrim st) [] [] /\
-             (slast st = None <-> ntrim = length hist).
+(* now: nothing committed so far is ahead of the stream (also on an empty oplog: position = Catalog.Trimmed) *)
+Theorem C09_watch_now_start : forall h hist ntrim, increasing ts_zero hist -> (ntrim <= length hist)%nat ->
+  exists st, watch h watch_now (skipn ntrim hist) (trimmed_of hist ntrim) = Some st /\
+             after (slast st) hist = [].
 Proof. exact watch_now_start. Qed.
 Print Assumptions C09_watch_now_start.
 
-Theorem C09_watch_resume_start : forall h hist ntrim A e B (after : bool),
-  NoDup (ids hist) -> ntrim <= length A -> hist = A ++ e :: B ->
-  let o := if after then mkW None (Some (TokEvent (eid e))) None else mkW (Some (TokEvent (eid e))) None None in
-  exists st, watch h o (skipn ntrim hist) = Some st /\ slast st = Some (eid e) /\
-             inv h (A ++ [e]) (world0 hist ntrim st) [] B.
+(* resumeAfter / startAfter: exactly the events after the token's event are ahead *)
+Theorem C09_watch_resume_start : forall h hist ntrim A e B (after_opt : bool),
+  increasing ts_zero hist -> (ntrim <= length A)%nat -> hist = A ++ e :: B ->
+  let o := if after_opt then mkW None (Some (TokEvent (eid e))) None else mkW (Some (TokEvent (eid e))) None None in
+  exists st, watch h o (skipn ntrim hist) (trimmed_of hist ntrim) = Some st /\ slast st = eid e /\
+             after (slast st) hist = B.
 Proof. exact watch_resume_start. Qed.
 Print Assumptions C09_watch_resume_start.
 
-Theorem C09_watch_at_start : forall h hist ntrim z a e b,
-  NoDup (ids hist) -> ntrim <= length hist -> skipn ntrim hist = a ++ e :: b ->
-  (forall x, In x a -> (eid x < z)%Z) -> (z <= eid e)%Z ->
-  exists st, watch h (mkW None None (Some z)) (skipn ntrim hist) = Some st /\
-             inv h (firstn ntrim hist ++ a) (world0 hist ntrim st) [] (e :: b) /\
-             (slast st = None <-> a = []).
+(* startAtOperationTime z: exactly the events with id >= z are ahead, removed ones included (then Lost) *)
+Theorem C09_watch_at_start : forall h hist ntrim z, increasing ts_zero hist ->
+  exists st, watch h (mkW None None (Some z)) (skipn ntrim hist) (trimmed_of hist ntrim) = Some st /\
+             slast st = z - 1 /\
+             after (slast st) hist = filter (fun e => Z.leb z (eid e)) hist.
 Proof. exact watch_at_start. Qed.
 Print Assumptions C09_watch_at_start.
 
-(* ---- delivery: once, in order, only matching events after the start; and
-        gap-free unless the defect window was hit (w_jumped) ---- *)
-Theorem C09_delivery : forall h pre w0 post0 script,
-  inv h pre w0 [] post0 -> script_ok (w_hist w0) script ->
+(* once, in order, only matching events above the start, gap-free — every stream, every interleaving *)
+Theorem C09_delivery : forall h z w0 post0 script,
+  sinv h z w0 [] post0 -> script_ok (w_hist w0) script ->
   let w := exec w0 script in
-  let after := skipn (length pre) (w_hist w) in
-  subseq (w_deliv w) (filter (in_scope h) after) /\
+  let after_start := after z (w_hist w) in
+  subseq (w_deliv w) (filter (in_scope h) after_start) /\
   NoDup (ids (w_deliv w)) /\
-  (w_jumped w = false -> prefix (w_deliv w) (expected h after)).
+  prefix (w_deliv w) (expected h after_start).
 Proof. exact delivery. Qed.
 Print Assumptions C09_delivery.
 
-(* a stream that starts at an event never skips: unconditional prefix *)
-Theorem C09_delivery_anchored : forall h pre w0 post0 script,
-  inv h pre w0 [] post0 -> script_ok (w_hist w0) script ->
-  slast (w_st w0) <> None -> w_jumped w0 = false ->
-  let w := exec w0 script in
-  prefix (w_deliv w) (expected h (skipn (length pre) (w_hist w))).
-Proof. exact delivery_anchored. Qed.
-Print Assumptions C09_delivery_anchored.
-
 (* the expected sequence is the scope filter, cut after the invalidating drop *)
-Theorem C09_expected_no_drop : forall h l,
-  forallb (fun e => negb (drops h e)) (filter (in_scope h) l) = true ->
+Theorem C09_expected_no_drop : forall h l, forallb (fun e => negb (drops h e)) (filter (in_scope h) l) = true ->
   expected h l = filter (in_scope h) l.
 Proof. exact expected_no_drop. Qed.
 Print Assumptions C09_expected_no_drop.
 
-(* ---- completeness ---- *)
-Theorem C09_delivery_complete_partial : forall h pre w0 post0 script,
-  inv h pre w0 [] post0 -> script_ok (w_hist w0) script ->
+(* FULL: nothing ahead of the stream removed, not closed -> repeated TryNext delivers everything expected *)
+Theorem C09_delivery_complete : forall h z w0 post0 script,
+  sinv h z w0 [] post0 -> script_ok (w_hist w0) script ->
   let w := exec w0 script in
-  w_jumped w = false -> anchor_retained w ->
+  (w_ntrim w <= position w)%nat ->
   serror (w_st w) = None -> (sclosed (w_st w) = false \/ sdropped (w_st w) = true) ->
-  forall n, length (w_hist w) <= n ->
-  w_deliv (drain n w) = expected h (skipn (length pre) (w_hist w)) /\ w_hist (drain n w) = w_hist w.
-Proof. exact delivery_complete_partial. Qed.
-Print Assumptions C09_delivery_complete_partial.
+  forall n, (length (w_hist w) <= n)%nat ->
+  w_deliv (drain n w) = expected h (after z (w_hist w)) /\ w_hist (drain n w) = w_hist w.
+Proof. exact delivery_complete. Qed.
+Print Assumptions C09_delivery_complete.
 
-(* FULL statement (hypothesis `w_ntrim w <= position w`: no event beyond the
-   stream's position was removed) is false: *)
-Theorem C09_delivery_complete_refuted :
-  exists h st0 script,
-    watch h watch_now [ev0] = Some st0 /\ script_ok [ev0] script /\
-    let w := exec (world0 [ev0] 0 st0) script in
-    w_jumped w = false /\
-    w_ntrim w <= position w /\
-    In ev1 (w_log w) /\ in_scope h ev1 = true /\
-    (forall n, w_deliv (drain (S n) w) = []) /\
-    expected h (skipn 1 (w_hist w)) = [ev1] /\
-    snd (next_iter false false (w_st w) (w_log w)) = Return Lost.
-Proof. exact delivery_complete_refuted. Qed.
-Print Assumptions C09_delivery_complete_refuted.
-
-(* ---- lost position ---- *)
-Theorem C09_lost_is_reported_partial : forall h pre w0 post0 script,
-  inv h pre w0 [] post0 -> script_ok (w_hist w0) script ->
-  slast (w_st w0) <> None ->
+(* FULL: retention removed an event ahead of the stream -> every pass reports Lost *)
+Theorem C09_lost_is_reported : forall h z w0 post0 script,
+  sinv h z w0 [] post0 -> script_ok (w_hist w0) script ->
   let w := exec w0 script in
   live (w_st w) -> sdropped (w_st w) = false ->
-  position w < w_ntrim w ->
-  forall b c, snd (next_iter b c (w_st w) (w_log w)) = Return Lost.
-Proof. exact lost_is_reported_partial. Qed.
-Print Assumptions C09_lost_is_reported_partial.
+  (position w < w_ntrim w)%nat ->
+  forall b c, snd (next_iter b c (w_st w) (w_log w) (w_trimmed w)) = Return Lost.
+Proof. exact lost_is_reported. Qed.
+Print Assumptions C09_lost_is_reported.
 
-(* FULL statement (without `slast (w_st w0) <> None`) is false — the finding: *)
-Theorem C09_lost_is_reported_refuted :
-  exists h st0 script,
-    watch h watch_now [] = Some st0 /\ script_ok [] script /\
-    let w := exec (world0 [] 0 st0) script in
-    (exists e, In e (w_hist w) /\ in_scope h e = true /\ ~ In e (w_deliv w) /\ ~ In e (w_log w)) /\
-    ~ In (Return Lost) (w_outs w) /\ serror (w_st w) = None /\ sclosed (w_st w) = false /\
-    w_deliv w = [ev1] /\ expected h (w_hist w) = [ev0; ev1] /\
-    ~ prefix (w_deliv w) (expected h (w_hist w)).
-Proof. exact lost_is_reported_refuted. Qed.
-Print Assumptions C09_lost_is_reported_refuted.
+(* ... and only then (no spurious ErrLostOplogPosition) *)
+Theorem C09_lost_only_if_trimmed : forall h z w0 post0 script,
+  sinv h z w0 [] post0 -> script_ok (w_hist w0) script ->
+  let w := exec w0 script in
+  forall b c, snd (next_iter b c (w_st w) (w_log w) (w_trimmed w)) = Return Lost ->
+  (position w < w_ntrim w)%nat.
+Proof. exact lost_only_if_trimmed. Qed.
+Print Assumptions C09_lost_only_if_trimmed.
 
-Theorem C09_lost_is_reported_refuted_start_at :
-  exists h st0 script,
-    watch h (mkW None None (Some 0%Z)) [ev0; ev1] = Some st0 /\ slast st0 = None /\
-    let w := exec (world0 [ev0; ev1] 0 st0) script in
-    script_ok [ev0; ev1] script /\
-    ~ In (Return Lost) (w_outs w) /\ w_deliv w = [ev1] /\
-    ~ prefix (w_deliv w) (expected h (w_hist w)).
-Proof. exact lost_is_reported_refuted_start_at. Qed.
-Print Assumptions C09_lost_is_reported_refuted_start_at.
-
-(* ---- resume ---- *)
-Theorem C09_resume_continues : forall h h' pre w0 post0 script e,
-  inv h pre w0 [] post0 -> script_ok (w_hist w0) script ->
+(* resume from a delivered event's token continues with the next event *)
+Theorem C09_resume_continues : forall h h' z w0 post0 script e,
+  sinv h z w0 [] post0 -> script_ok (w_hist w0) script ->
   let w := exec w0 script in
   In e (w_deliv w) -> In e (w_log w) ->
   exists st' A B,
     w_hist w = A ++ e :: B /\
-    watch h' (mkW (Some (TokEvent (eid e))) None None) (w_log w) = Some st' /\
-    slast st' = Some (eid e) /\
-    inv h' (A ++ [e]) (world0 (w_hist w) (w_ntrim w) st') [] B.
+    watch h' (mkW (Some (TokEvent (eid e))) None None) (w_log w) (w_trimmed w) = Some st' /\
+    slast st' = eid e /\ after (eid e) (w_hist w) = B /\
+    sinv h' (eid e) (world0 (w_hist w) (w_ntrim w) st') [] B.
 Proof. exact resume_continues. Qed.
 Print Assumptions C09_resume_continues.
 
-Theorem C09_resume_continues_delivery : forall h' hist ntrim st' A e B script,
-  inv h' (A ++ [e]) (world0 hist ntrim st') [] B -> slast st' = Some (eid e) ->
-  script_ok hist script ->
-  let w := exec (world0 hist ntrim st') script in
-  prefix (w_deliv w) (expected h' (skipn (length (A ++ [e])) (w_hist w))).
-Proof. exact resume_continues_delivery. Qed.
-Print Assumptions C09_resume_continues_delivery.
-
-Theorem C09_token_after_event : forall b c s log s' e,
-  next_iter b c s log = (s', Return (Event e)) -> stok s' = Some (TokEvent (eid e)).
+Theorem C09_token_after_event : forall b c s log tr s' e,
+  next_iter b c s log tr = (s', Return (Event e)) -> stok s' = Some (TokEvent (eid e)).
 Proof. exact token_after_event. Qed.
 Print Assumptions C09_token_after_event.
 
-(* ---- invalidate ---- *)
-Theorem C09_invalidate_after_drop : forall b c s log s' e,
-  next_iter b c s log = (s', Return (Event e)) -> drops (sh s) e = true ->
-  forall b' c' log',
-  exists s'', next_iter b' c' s' log' = (s'', Return Invalidate) /\
+(* invalidate + close after the drop of the stream's namespace *)
+Theorem C09_invalidate_after_drop : forall b c s log tr s' e,
+  next_iter b c s log tr = (s', Return (Event e)) -> drops (sh s) e = true ->
+  forall b' c' log' tr',
+  exists s'', next_iter b' c' s' log' tr' = (s'', Return Invalidate) /\
               sclosed s'' = true /\ stok s'' = Some TokInvalidate /\
-              forall b'' c'' log'', next_iter b'' c'' s'' log'' = (s'', Return Closed).
+              forall b'' c'' log'' tr'', next_iter b'' c'' s'' log'' tr'' = (s'', Return Closed).
 Proof. exact invalidate_after_drop. Qed.
 Print Assumptions C09_invalidate_after_drop.
 
-Theorem C09_invalidate_only_after_drop : forall b c s log s',
-  next_iter b c s log = (s', Return Invalidate) -> sdropped s = true.
+Theorem C09_invalidate_only_after_drop : forall b c s log tr s',
+  next_iter b c s log tr = (s', Return Invalidate) -> sdropped s = true.
 Proof. exact invalidate_only_after_drop. Qed.
 Print Assumptions C09_invalidate_only_after_drop.
 
-(* which events drop a stream: the drop of its collection or the dropDatabase
-   of its database (collection scope), dropDatabase (database scope), none (client) *)
 Theorem C09_drops_coll : forall d c e, d <> ""%string -> c <> ""%string ->
   drops (d, c) e = is_drop (eop e) || is_dropdb (eop e).
 Proof. exact drops_coll. Qed.
 Print Assumptions C09_drops_coll.
+
 Theorem C09_drops_db : forall d e, d <> ""%string -> drops (d, ""%string) e = is_dropdb (eop e).
 Proof. exact drops_db. Qed.
 Print Assumptions C09_drops_db.
-Theorem C09_drops_client : forall c e, drops (""%string, c) e = false.
+
+Theorem C09_drops_client : forall c e, drops ("", c)%string e = false.
 Proof. exact drops_client. Qed.
 Print Assumptions C09_drops_client.
+
 Theorem C09_in_scope_coll : forall d c e, d <> ""%string -> c <> ""%string ->
   in_scope (d, c) e = String.eqb d (edb e) && (String.eqb c (ecoll e) || is_dropdb (eop e)).
 Proof. exact in_scope_coll. Qed.
 Print Assumptions C09_in_scope_coll.
 
 (* TryNext always returns (the fuel of `next` suffices) *)
-Theorem C09_next_total : forall s log, NoDup (ids log) ->
-  exists o, snd (next s log) = Ok o /\ exists o', snd (next_cancelled s log) = Ok o'.
+Theorem C09_next_total : forall s log tr,
+  exists o, snd (next s log tr) = Ok o /\ exists o', snd (next_cancelled s log tr) = Ok o'.
 Proof. exact next_total. Qed.
 Print Assumptions C09_next_total.
 
-(* the model's trim / commit are prefix removal / append on the oplog *)
-Theorem C09_trim_is_prefix_removal : forall w k, w_log (exec_step w (STrim k)) = trim k (w_log w).
+(* the model's trim is prefix removal on the oplog *)
+Theorem C09_w_log_trim : forall w k, w_log (exec_step w (STrim k)) = trim k (w_log w).
 Proof. exact w_log_trim. Qed.
-Print Assumptions C09_trim_is_prefix_removal.
+Print Assumptions C09_w_log_trim.
 
-(* ---- without stalls: the concurrent model ---- *)
+(* Catalog.Trimmed is the id of the newest event retention has removed *)
+Theorem C09_trimmed_after_of : forall hist n k,
+  trimmed_after k (skipn n hist) (trimmed_of hist n) = trimmed_of hist (Nat.min (n + k) (length hist)).
+Proof. exact trimmed_after_of. Qed.
+Print Assumptions C09_trimmed_after_of.
+
+(* in a history, the events ahead of position z are the events with id > z *)
+Theorem C09_after_filter : forall l lo z, increasing lo l -> after z l = filter (fun e => Z.ltb z (eid e)) l.
+Proof. exact after_filter. Qed.
+Print Assumptions C09_after_filter.
+
+(* without stalls: the concurrent model *)
 Theorem C09_no_lost_wakeup : forall s0 s, initial s0 -> reachable s0 s ->
   consumer_waiting s -> undelivered_matching s ->
   signal_full s \/ committer_about_to_signal s.
@@ -249,55 +208,95 @@ Theorem C09_commit_wakes : forall s i s1 s2,
 Proof. exact commit_wakes. Qed.
 Print Assumptions C09_commit_wakes.
 
-(* ---- non-vacuity ---- *)
-Example C09_ex_start : watch hcoll watch_now [ev0] = Some st_after0 /\ inv hcoll [ev0] w_ex [] [].
+(* ---- non-vacuity, and the former defect witnesses, repaired ---- *)
+Example C09_ex_start : watch hcoll watch_now [ev0] ts_zero = Some st_after0 /\ sinv hcoll 0 w_ex [] [].
 Proof. exact ex_start. Qed.
-Example C09_ex_script_ok : script_ok (w_hist w_ex) script_ex.
+
+Example C09_script_ex_ok : script_ok (w_hist w_ex) script_ex.
 Proof. exact script_ex_ok. Qed.
+
 Example C09_ex_delivery :
   w_deliv (exec w_ex script_ex) = [ev1; ev3] /\
-  expected hcoll (skipn 1 (w_hist (exec w_ex script_ex))) = [ev1; ev3] /\
+  expected hcoll (after 0 (w_hist (exec w_ex script_ex))) = [ev1; ev3] /\
   w_outs (exec w_ex script_ex) =
-    [Return (Event ev1); Continue; Return (Event ev3); Return Invalidate; Return Closed; Return Closed] /\
-  w_jumped (exec w_ex script_ex) = false.
+    [Return (Event ev1); Continue; Return (Event ev3); Return Invalidate; Return Closed; Return Closed].
 Proof. exact ex_delivery. Qed.
+
 Example C09_ex_lost :
-  script_ok (w_hist w_ex) script_lost /\ slast (w_st w_ex) <> None /\
+  script_ok (w_hist w_ex) script_lost /\
   let w := exec w_ex script_lost in
-  live (w_st w) /\ sdropped (w_st w) = false /\ position w < w_ntrim w /\
-  snd (next_iter false false (w_st w) (w_log w)) = Return Lost.
+  live (w_st w) /\ sdropped (w_st w) = false /\ (position w < w_ntrim w)%nat /\
+  snd (next_iter false false (w_st w) (w_log w) (w_trimmed w)) = Return Lost.
 Proof. exact ex_lost. Qed.
+
 Example C09_ex_complete :
   script_ok (w_hist w_ex) script_complete /\
   let w := exec w_ex script_complete in
-  w_jumped w = false /\ anchor_retained w /\ serror (w_st w) = None /\ sclosed (w_st w) = false /\
+  (w_ntrim w <= position w)%nat /\ serror (w_st w) = None /\ sclosed (w_st w) = false /\
+  w_ntrim w = 2%nat /\ w_trimmed w = 1 /\
   w_deliv w = [ev1] /\ w_deliv (drain 4 w) = [ev1; ev4] /\
-  expected hcoll (skipn 1 (w_hist w)) = [ev1; ev4].
+  expected hcoll (after 0 (w_hist w)) = [ev1; ev4].
 Proof. exact ex_complete. Qed.
+
+Example C09_lost_is_reported_repaired :
+  watch hcoll watch_now [] ts_zero = Some st_fresh /\ script_ok [] skip_script /\
+  let w := exec (world0 [] 0 st_fresh) skip_script in
+  w_outs w = [Return Lost; Return Closed] /\ w_deliv w = [] /\
+  serror (w_st w) = Some ELost /\ sclosed (w_st w) = true.
+Proof. exact lost_is_reported_repaired. Qed.
+
+Example C09_lost_is_reported_repaired_start_at :
+  exists st0, watch hcoll (mkW None None (Some 0)) [ev0; ev1] ts_zero = Some st0 /\
+  let w := exec (world0 [ev0; ev1] 0 st0) [STrim 1; SIter false false] in
+  w_outs w = [Return Lost] /\ w_deliv w = [].
+Proof. exact lost_is_reported_repaired_start_at. Qed.
+
+Example C09_delivery_complete_repaired :
+  watch hcoll watch_now [ev0] ts_zero = Some st_after0 /\
+  let w := exec w_ex [SCommit [ev1]; STrim 1] in
+  (w_ntrim w <= position w)%nat /\ In ev1 (w_log w) /\
+  snd (next_iter false false (w_st w) (w_log w) (w_trimmed w)) = Return (Event ev1) /\
+  w_deliv (drain 2 w) = [ev1] /\ expected hcoll (after 0 (w_hist w)) = [ev1].
+Proof. exact delivery_complete_repaired. Qed.
+
 Example C09_ex_resume :
-  let w := exec w_ex script_complete in
+  let w := exec w_ex script_resume in
   In ev1 (w_deliv w) /\ In ev1 (w_log w) /\
-  exists st', watch ("d"%string, ""%string) (mkW (Some (TokEvent 1%Z)) None None) (w_log w) = Some st' /\
-              snd (next st' (w_log w)) = Ok (Event ev2).
+  exists st', watch ("d"%string, ""%string) (mkW (Some (TokEvent 1)) None None) (w_log w) (w_trimmed w) = Some st' /\
+              snd (next st' (w_log w) (w_trimmed w)) = Ok (Event ev2).
 Proof. exact ex_resume. Qed.
+
 Example C09_ex_invalidate :
-  exists s', next_iter false false (mkS hcoll (Some 2%Z) false false None None None) [ev2; ev3; ev4]
+  exists s', next_iter false false (mkS hcoll 2 false false None None None) [ev2; ev3; ev4] ts_zero
              = (s', Return (Event ev3)) /\ drops hcoll ev3 = true.
 Proof. exact ex_invalidate. Qed.
+
+Local Open Scope nat_scope.
+
 Example C09_ex_window_reachable :
   exists s, initial c_ex0 /\ reachable c_ex0 s /\ consumer_waiting s /\ undelivered_matching s.
 Proof. exact ex_window_reachable. Qed.
+
 Example C09_ex_window :
   exists s, crun [LCall true; LCheck; LPublish 0] c_ex0 = Some s /\
             consumer_waiting s /\ undelivered_matching s /\ c_sig s = false /\
             committer_about_to_signal s.
 Proof. exact ex_window. Qed.
+
 Example C09_ex_wakeup :
   exists s, crun [LCall true; LCheck; LPublish 0; LSignal 0; LWake; LCheck] c_ex0 = Some s /\
             c_cons s = CDone (Event ev1) /\ c_sig s = false.
 Proof. exact ex_wakeup. Qed.
+
+Example C09_ex_trim_wakes :
+  exists s, crun [LCall true; LCheck; LPublish 0; LSignal 0; LWake; LCheck]
+                 (cinit [ev0] ts_zero st_after0 [([ev1; ev2], 2)]) = Some s /\
+            c_cons s = CDone Lost /\ c_trimmed s = 1%Z.
+Proof. exact ex_trim_wakes. Qed.
+
 Example C09_ex_close_wakes :
   (exists s, crun [LCall true; LCheck; LCloseMark; LCloseSend; LWake; LCheck] c_ex0 = Some s /\ c_cons s = CDone Closed) /\
   (exists s, crun [LCall true; LCheck; LCancel; LWakeCtx] c_ex0 = Some s /\ c_cons s = CDone Closed /\ serror (c_st s) = Some ECtx) /\
   (exists s, crun [LCall true; LCheck; LEngineClose; LWake] c_ex0 = Some s /\ c_cons s = CDone Closed /\ sclosed (c_st s) = true).
 Proof. exact ex_close_wakes. Qed.
+
